@@ -20,3 +20,6 @@ def run(ctx):
     from . import scopes
     lib_py.unused_params(ctx, py, mods=("metadata",), only=scopes.py_scope("C12"))
     lib_kind.py_lints(ctx, py, mods=("metadata",), only=scopes.py_scope("C12"))
+    # the interchange of metadata / schema bytes through dicts (asdict, pickle, copy): guards written in the glue
+    P = ctx.program()
+    lib_kind.length_guard(ctx, P, lambda k, f: f.startswith("write_") or f.startswith("parse_") or "metadata" in f, tus=["module"])
